@@ -1035,6 +1035,12 @@ func (e *e6Interp) call(x ssa.Value, cc *ssa.CallCommon, in ssa.Instruction) {
 		e.env[x] = e.inline(sf, args, x.Type())
 		return
 	}
+	// a straight-line arithmetic helper (numbers in, one number out, one block, no calls) is always evaluated in
+	// place: it adds no conditions and has no effects, and a formula moved into such a helper is still the formula
+	if sf := cc.StaticCallee(); sf != nil && e.depth < 3 && isStraightArith(sf) {
+		e.env[x] = e.inline(sf, args, x.Type())
+		return
+	}
 	r := &Sym{Op: "call", Args: args, Type: x.Type(), Obj: co}
 	if co != nil {
 		r.Name = co.FullName()
@@ -1328,4 +1334,31 @@ func symInt(s *Sym, leaf func(*Sym) (int64, bool)) (int64, bool) {
 		}
 	}
 	return 0, false
+}
+
+// isStraightArith: a function with a body of one block that only computes with its numeric parameters.
+func isStraightArith(f *ssa.Function) bool {
+	if f.Blocks == nil || len(f.Blocks) != 1 || f.Signature.Recv() != nil || f.Signature.Results().Len() != 1 || len(f.Params) == 0 || len(f.FreeVars) > 0 {
+		return false
+	}
+	isNum := func(t types.Type) bool {
+		b, ok := t.Underlying().(*types.Basic)
+		return ok && b.Info()&types.IsNumeric != 0
+	}
+	if !isNum(f.Signature.Results().At(0).Type()) {
+		return false
+	}
+	for _, p := range f.Params {
+		if !isNum(p.Type()) {
+			return false
+		}
+	}
+	for _, in := range f.Blocks[0].Instrs {
+		switch in.(type) {
+		case *ssa.BinOp, *ssa.UnOp, *ssa.Convert, *ssa.ChangeType, *ssa.Return, *ssa.DebugRef:
+		default:
+			return false
+		}
+	}
+	return true
 }
